@@ -294,5 +294,304 @@ theorem first_readIntOpt_text (R : Rendering ens ens' T Dom) (s : Step) (p : Lis
   rw [R.text e (findFirst_isElem s p x e h)]
 
 
+theorem loadDynamicValue (R : Rendering ens ens' T Dom) (x : XmlNode) (hx : Dom x) :
+    Spp.loadDynamicValue ens' (T x) = Spp.loadDynamicValue ens x := by
+  unfold Spp.loadDynamicValue
+  simp only [R.findFirst _ x hx, R.loadLinearAdjuster x hx]
+  cases h : Spp.findFirst ens [step "ParameterInstanceRef"] x with
+  | none => rfl
+  | some pir => simp only [Option.map_some, R.attr!, R.attr?]
+
+theorem loadBinaryEncoding (R : Rendering ens ens' T Dom) (x : XmlNode) (hx : Dom x) :
+    Spp.loadBinaryEncoding ens' (T x) = Spp.loadBinaryEncoding ens x := by
+  unfold Spp.loadBinaryEncoding
+  simp only [R.findFirst _ x hx]
+  cases h1 : Spp.findFirst ens [step "SizeInBits", step "FixedValue"] x with
+  | some e => simp only [Option.map_some, R.text e (findFirst_isElem _ _ x e h1)]
+  | none =>
+    simp only [Option.map_none]
+    cases h2 : Spp.findFirst ens [step "SizeInBits", step "DynamicValue"] x with
+    | some dv => simp only [Option.map_some, R.loadDynamicValue dv (R.findFirst_dom _ x dv hx h2)]
+    | none =>
+      simp only [Option.map_none]
+      cases h3 : Spp.findFirst ens [step "SizeInBits", step "DiscreteLookupList"] x with
+      | some dl =>
+        simp only [Option.map_some,
+          R.mapM_elems (Spp.loadDiscreteLookup ens') (Spp.loadDiscreteLookup ens) dl (R.findFirst_dom _ x dl hx h3)
+            (fun e he _ => R.loadDiscreteLookup e he)]
+      | none => rfl
+
+theorem strSizeEl (R : Rendering ens ens' T Dom) (x : XmlNode) (hx : Dom x) :
+    Spp.strSizeEl ens' (T x) = (Spp.strSizeEl ens x).map T := by
+  unfold Spp.strSizeEl
+  simp only [R.findFirst _ x hx]
+  cases h1 : Spp.findFirst ens [step "SizeInBits"] x with
+  | some se => rfl
+  | none => rfl
+
+theorem strSizeEl_dom (R : Rendering ens ens' T Dom) (x e : XmlNode) (hx : Dom x)
+    (h : Spp.strSizeEl ens x = some e) : Dom e := by
+  unfold Spp.strSizeEl at h
+  cases h1 : Spp.findFirst ens [step "SizeInBits"] x with
+  | some se => simp only [h1] at h; injection h with h; subst h; exact R.findFirst_dom _ x se hx h1
+  | none => simp only [h1] at h; exact R.findFirst_dom _ x e hx h
+
+theorem loadStrSpec (R : Rendering ens ens' T Dom) (x : XmlNode) (hx : Dom x) :
+    Spp.loadStrSpec ens' (T x) = Spp.loadStrSpec ens x := by
+  unfold Spp.loadStrSpec
+  simp only [R.findFirst _ x hx]
+  cases h1 : Spp.findFirst ens [step "SizeInBits"] x with
+  | some se =>
+    have hse := R.findFirst_dom _ x se hx h1
+    simp only [Option.map_some, R.findFirst _ se hse]
+    cases h2 : Spp.findFirst ens [step "Fixed", step "FixedValue"] se with
+    | some e => simp only [Option.map_some, R.text e (findFirst_isElem _ _ se e h2)]
+    | none => rfl
+  | none =>
+    simp only [Option.map_none]
+    cases h2 : Spp.findFirst ens [step "Variable"] x with
+    | none => rfl
+    | some ve =>
+      have hve := R.findFirst_dom _ x ve hx h2
+      simp only [Option.map_some, R.findFirst _ ve hve]
+      cases h3 : Spp.findFirst ens [step "DynamicValue"] ve with
+      | some dv => simp only [Option.map_some, R.loadDynamicValue dv (R.findFirst_dom _ ve dv hve h3)]
+      | none =>
+        simp only [Option.map_none]
+        cases h4 : Spp.findFirst ens [step "DiscreteLookupList"] ve with
+        | some dl =>
+          simp only [Option.map_some,
+            R.mapM_elems (Spp.loadDiscreteLookup ens') (Spp.loadDiscreteLookup ens) dl (R.findFirst_dom _ ve dl hve h4)
+              (fun e he _ => R.loadDiscreteLookup e he)]
+        | none => rfl
+
+theorem loadStrTail (R : Rendering ens ens' T Dom) (x : XmlNode) (hx : Dom x) :
+    Spp.loadStrTail ens' (T x) = Spp.loadStrTail ens x := by
+  unfold Spp.loadStrTail
+  simp only [R.first_bind_text _ _ x hx]
+  simp only [R.findFirst _ x hx]
+  cases h1 : Spp.findFirst ens [step "LeadingSize"] x with
+  | some e => simp only [Option.map_some, R.attr!]
+  | none => rfl
+
+theorem loadStringEncoding (R : Rendering ens ens' T Dom) (x : XmlNode) (hx : Dom x) :
+    Spp.loadStringEncoding ens' (T x) = Spp.loadStringEncoding ens x := by
+  unfold Spp.loadStringEncoding
+  simp only [R.attr?, R.loadStrSpec x hx, R.strSizeEl x hx]
+  cases h1 : Spp.strSizeEl ens x with
+  | none => rfl
+  | some se => simp only [Option.map_some, R.loadStrTail se (R.strSizeEl_dom x se hx h1)]
+
+theorem loadDataEncoding (R : Rendering ens ens' T Dom) (x : XmlNode) (hx : Dom x)
+    (hdesc : ∀ tag e, findDescendant ens tag x = some e → Dom e) :
+    Spp.loadDataEncoding ens' (T x) = Spp.loadDataEncoding ens x := by
+  unfold Spp.loadDataEncoding
+  simp only [R.findDesc _ x hx]
+  cases h1 : findDescendant ens "StringDataEncoding" x with
+  | some e => simp only [Option.map_some, R.loadStringEncoding e (hdesc _ e h1)]
+  | none =>
+    simp only [Option.map_none]
+    cases h2 : findDescendant ens "IntegerDataEncoding" x with
+    | some e => simp only [Option.map_some, R.loadIntEncoding e (hdesc _ e h2)]
+    | none =>
+      simp only [Option.map_none]
+      cases h3 : findDescendant ens "FloatDataEncoding" x with
+      | some e => simp only [Option.map_some, R.loadFloatEncoding e (hdesc _ e h3)]
+      | none =>
+        simp only [Option.map_none]
+        cases h4 : findDescendant ens "BinaryDataEncoding" x with
+        | some e => simp only [Option.map_some, R.loadBinaryEncoding e (hdesc _ e h4)]
+        | none => rfl
+
+mutual
+theorem descendants_dom (R : Rendering ens ens' T Dom) : ∀ x, Dom x → ∀ e ∈ descendants x, Dom e
+  | .elem n t a tx c, hx, e, he => by
+    simp only [descendants] at he
+    exact descendantsList_dom R c (fun k hk => R.kids_dom _ hx k (by simpa [XmlNode.kids] using hk)) e he
+  | .comment _, _, e, he => by simp [descendants] at he
+theorem descendantsList_dom (R : Rendering ens ens' T Dom) :
+    ∀ l : List XmlNode, (∀ k ∈ l, Dom k) → ∀ e ∈ descendantsList l, Dom e
+  | [], _, e, he => by simp [descendantsList] at he
+  | x :: xs, h, e, he => by
+    simp only [descendantsList, List.mem_append] at he
+    rcases he with (he | he) | he
+    · split at he
+      · simp only [List.mem_singleton] at he; rw [he]; exact h x (by simp)
+      · simp at he
+    · exact descendants_dom R x (h x (by simp)) e he
+    · exact descendantsList_dom R xs (fun k hk => h k (by simp [hk])) e he
+end
+
+theorem findDescendant_dom (R : Rendering ens ens' T Dom) (x : XmlNode) (hx : Dom x) (tag : String) (e : XmlNode)
+    (h : findDescendant ens tag x = some e) : Dom e := by
+  unfold findDescendant at h
+  exact R.descendants_dom x hx e (List.mem_of_find?_eq_some h)
+
+theorem loadDataEncoding' (R : Rendering ens ens' T Dom) (x : XmlNode) (hx : Dom x) :
+    Spp.loadDataEncoding ens' (T x) = Spp.loadDataEncoding ens x :=
+  R.loadDataEncoding x hx (fun tag e h => R.findDescendant_dom x hx tag e h)
+
+/-! ### parameter types and parameters -/
+
+theorem loadUnits (R : Rendering ens ens' T Dom) (x : XmlNode) (hx : Dom x) :
+    Spp.loadUnits ens' (T x) = Spp.loadUnits ens x := by
+  unfold Spp.loadUnits
+  rw [R.findAll _ x hx]
+  match h : Spp.findAll ens [step "UnitSet", step "Unit"] x with
+  | [] => rfl
+  | [u] =>
+    have hu : u.isElem = true := findAll_isElem _ _ x u (by rw [h]; simp)
+    simp only [List.map_cons, List.map_nil, R.text u hu]
+  | _ :: _ :: _ => rfl
+
+theorem loadEnumeration (R : Rendering ens ens' T Dom) (x : XmlNode) (hx : Dom x) (enc : Encoding) :
+    Spp.loadEnumeration ens' (T x) enc = Spp.loadEnumeration ens x enc := by
+  unfold Spp.loadEnumeration
+  simp only [R.findFirst _ x hx]
+  cases h1 : Spp.findFirst ens [step "EnumerationList"] x with
+  | none => rfl
+  | some l => simp only [Option.map_some, bind, Except.bind, pure, Except.pure, R.elems, List.foldlM_map, R.attr!]
+
+theorem loadParameter (R : Rendering ens ens' T Dom) (types : List (String × LPType)) (x : XmlNode) (hx : Dom x) :
+    Spp.loadParameter ens' types (T x) = Spp.loadParameter ens types x := by
+  unfold Spp.loadParameter
+  simp only [R.first_bind_text _ _ x hx, R.attr!, R.attr?]
+
+theorem loadParameterType (R : Rendering ens ens' T Dom) (x : XmlNode) (hx : Dom x) :
+    Spp.loadParameterType ens' (T x) = Spp.loadParameterType ens x := by
+  unfold Spp.loadParameterType
+  simp only [R.tag, R.attr!, R.attr?, R.loadDataEncoding' x hx, R.loadUnits x hx, R.loadEnumeration x hx,
+    R.first_bind_text _ _ x hx]
+  simp only [R.findFirst _ x hx]
+  cases h1 : Spp.findFirst ens [step "Encoding"] x <;>
+    cases h2 : Spp.findFirst ens [step "ReferenceTime", step "OffsetFrom"] x <;>
+      simp only [Option.map_some, Option.map_none, bind, Except.bind, pure, Except.pure, R.attr?, R.attr!]
+
+/-! ### containers -/
+
+theorem getContainerElement (R : Rendering ens ens' T Dom) (root : XmlNode) (hr : Dom root) (name : String) :
+    Spp.getContainerElement ens' (T root) name = (Spp.getContainerElement ens root name).map T := by
+  unfold Spp.getContainerElement
+  simp only [R.findFirst _ root hr]
+  cases h1 : Spp.findFirst ens [step "TelemetryMetaData", step "ContainerSet"] root with
+  | none => rfl
+  | some cs =>
+    simp only [Option.map_some, R.findAll _ cs (R.findFirst_dom _ root cs hr h1)]
+    match h2 : Spp.findAll ens [{ tag := "SequenceContainer", nameEq := some name }] cs with
+    | [] => rfl
+    | [e] => rfl
+    | _ :: _ :: _ => rfl
+
+theorem getContainerElement_dom (R : Rendering ens ens' T Dom) (root : XmlNode) (hr : Dom root) (name : String)
+    (e : XmlNode) (h : Spp.getContainerElement ens root name = .ok e) : Dom e := by
+  unfold Spp.getContainerElement at h
+  cases h1 : Spp.findFirst ens [step "TelemetryMetaData", step "ContainerSet"] root with
+  | none => simp [h1] at h
+  | some cs =>
+    simp only [h1] at h
+    have hcs := R.findFirst_dom _ root cs hr h1
+    match h2 : Spp.findAll ens [{ tag := "SequenceContainer", nameEq := some name }] cs with
+    | [] => simp [h2] at h
+    | [e'] =>
+      simp only [h2] at h
+      injection h with h; subst h
+      exact R.findAll_dom _ cs hcs e' (by rw [h2]; simp)
+    | _ :: _ :: _ => simp [h2] at h
+
+theorem loadRestriction (R : Rendering ens ens' T Dom) (bc : XmlNode) (hb : Dom bc) :
+    Spp.loadRestriction ens' (T bc) = Spp.loadRestriction ens bc := by
+  unfold Spp.loadRestriction
+  simp only [R.findFirst _ bc hb]
+  cases h0 : Spp.findFirst ens [step "RestrictionCriteria"] bc with
+  | none => rfl
+  | some rc =>
+    have hrc := R.findFirst_dom _ bc rc hb h0
+    simp only [Option.map_some, R.findFirst _ rc hrc]
+    cases h1 : Spp.findFirst ens [step "ComparisonList"] rc with
+    | some l =>
+      simp only [Option.map_some,
+        R.mapM_elems Spp.loadComparison Spp.loadComparison l (R.findFirst_dom _ rc l hrc h1) (fun e _ _ => R.loadComparison e)]
+    | none =>
+      simp only [Option.map_none]
+      cases h2 : Spp.findFirst ens [step "Comparison"] rc with
+      | some c => simp only [Option.map_some, R.loadComparison]
+      | none =>
+        simp only [Option.map_none]
+        cases h3 : Spp.findFirst ens [step "BooleanExpression"] rc with
+        | some b => simp only [Option.map_some, R.loadBoolExpr b (R.findFirst_dom _ rc b hrc h3)]
+        | none =>
+          simp only [Option.map_none]
+          cases h4 : Spp.findFirst ens [step "CustomAlgorithm"] rc with
+          | some _ => rfl
+          | none => rfl
+
+/-- A recursive loader pair that agrees on renderings of nodes of the domain. -/
+def RecAgree (T : XmlNode → XmlNode) (Dom : XmlNode → Prop) (rec' rec : ContRec) : Prop :=
+  ∀ lk e, Dom e → rec' lk (T e) = rec lk e
+
+theorem loadBaseWith (R : Rendering ens ens' T Dom) (root : XmlNode) (hr : Dom root) (rec' rec : ContRec)
+    (hrec : RecAgree T Dom rec' rec) (lookup : CLookup) (x : XmlNode) (hx : Dom x) :
+    Spp.loadBaseWith ens' (T root) rec' lookup (T x) = Spp.loadBaseWith ens root rec lookup x := by
+  unfold Spp.loadBaseWith
+  simp only [R.findFirst _ x hx]
+  cases h0 : Spp.findFirst ens [step "BaseContainer"] x with
+  | none => rfl
+  | some bc =>
+    have hbc := R.findFirst_dom _ x bc hx h0
+    simp only [Option.map_some, R.loadRestriction bc hbc, R.attr!]
+    cases Spp.loadRestriction ens bc with
+    | error e => rfl
+    | ok crit =>
+      simp only
+      cases bc.attr! "containerRef" with
+      | error e => rfl
+      | ok ref =>
+        simp only [R.getContainerElement root hr ref]
+        cases hg : Spp.getContainerElement ens root ref with
+        | error e => rfl
+        | ok bEl =>
+          have hbEl := R.getContainerElement_dom root hr ref bEl hg
+          simp only [Except.map, R.attr!, hrec lookup bEl hbEl]
+
+theorem loadEntryWith (R : Rendering ens ens' T Dom) (root : XmlNode) (hr : Dom root) (params : List (String × LParam))
+    (rec' rec : ContRec) (hrec : RecAgree T Dom rec' rec) (acc : List LEntry × CLookup) (entry : XmlNode) :
+    Spp.loadEntryWith ens' (T root) params rec' acc (T entry) = Spp.loadEntryWith ens root params rec acc entry := by
+  unfold Spp.loadEntryWith
+  simp only [R.tag, R.attr!]
+  split
+  · rfl
+  · split
+    · cases entry.attr! "containerRef" with
+      | error e => rfl
+      | ok cn =>
+        simp only [R.getContainerElement root hr cn]
+        split
+        · rfl
+        · cases hg : Spp.getContainerElement ens root cn with
+          | error e => rfl
+          | ok nEl =>
+            simp only [Except.map, hrec acc.2 nEl (R.getContainerElement_dom root hr cn nEl hg)]
+    · rfl
+
+theorem loadContainer (R : Rendering ens ens' T Dom) (root : XmlNode) (hr : Dom root) (params : List (String × LParam)) :
+    ∀ fuel, RecAgree T Dom (Spp.loadContainer ens' (T root) params fuel) (Spp.loadContainer ens root params fuel) := by
+  intro fuel
+  induction fuel with
+  | zero => intro lk e _; rfl
+  | succ fuel ih =>
+    intro lookup x hx
+    simp only [Spp.loadContainer]
+    simp only [R.first_bind_text _ _ x hx]
+    simp only [R.loadBaseWith root hr _ _ ih lookup x hx, R.findFirst _ x hx, R.attr!, R.attr?, R.boolAttr]
+    cases Spp.loadBaseWith ens root (Spp.loadContainer ens root params fuel) lookup x with
+    | error e => rfl
+    | ok r =>
+      obtain ⟨baseName, criteria, lookup2⟩ := r
+      simp only
+      cases h1 : Spp.findFirst ens [step "EntryList"] x with
+      | none => rfl
+      | some el =>
+        simp only [Option.map_some, R.elems, List.foldlM_map, R.loadEntryWith root hr params _ _ ih]
+
 end Rendering
 end Spp
